@@ -651,7 +651,53 @@ def _structured(body, mode, targets, at):
     try:
         return _finish(_tailify(body), mode, targets, at)
     except _Site:
+        if mode == 'discard':
+            done = _leave_last_loop(body)
+            if done is not None:
+                return done
         return _loop_form(body, mode, targets, at)
+
+
+def _leave_last_loop(body):
+    """A helper called for its effects whose last statement is a loop that
+    it leaves with a bare `return`: the return is a `break` (nothing follows
+    the loop).  None when a return sits elsewhere or in an inner loop."""
+    if not body or not isinstance(body[-1], (ast.For, ast.While)) or \
+            body[-1].orelse or any(_contains_return(st) for st in body[:-1]):
+        return None
+    loop = copy.deepcopy(body[-1])
+
+    def rewrite(stmts):
+        out = []
+        for st in stmts:
+            if isinstance(st, ast.Return):
+                if st.value is not None and not (
+                        isinstance(st.value, ast.Constant) and
+                        st.value.value is None):
+                    raise _Site()
+                out.append(ast.copy_location(ast.Break(), st))
+                continue
+            if isinstance(st, (ast.For, ast.While, ast.AsyncFor)) and \
+                    _contains_return(st):
+                raise _Site()
+            if isinstance(st, (ast.FunctionDef, ast.AsyncFunctionDef,
+                               ast.ClassDef)):
+                out.append(st)
+                continue
+            for name in _BLOCKS:
+                blk = getattr(st, name, None)
+                if isinstance(blk, list) and blk and \
+                        isinstance(blk[0], ast.stmt):
+                    setattr(st, name, rewrite(blk))
+            for h in getattr(st, 'handlers', []) or []:
+                h.body = rewrite(h.body)
+            out.append(st)
+        return out
+    try:
+        loop.body = rewrite(loop.body)
+    except _Site:
+        return None
+    return list(body[:-1]) + [loop]
 
 
 def _pass(at):
@@ -1241,11 +1287,48 @@ class _Desugar(ast.NodeTransformer):
             lst = getattr(node, name, None)
             if isinstance(lst, list) and lst and isinstance(lst[0], ast.stmt):
                 setattr(node, name, self._block(lst))
+        if isinstance(node, ast.Try):
+            node.handlers = self._split_handlers(node.handlers)
         for h in getattr(node, 'handlers', []) or []:
             h.body = self._block(h.body)
         for case in getattr(node, 'cases', []) or []:
             case.body = self._block(case.body)
         return node
+
+    def _split_handlers(self, handlers):
+        """except (A, B) as e:                 except A as e: X
+               if isinstance(e, A): X    ->    except B as e: Y
+               else: Y
+        (an instance of A goes to X either way; anything else that was
+        caught is a B)."""
+        out = []
+        for h in handlers:
+            body = [st for st in h.body if not (
+                isinstance(st, ast.Expr) and
+                isinstance(st.value, ast.Constant))]
+            t = body[0].test if len(body) == 1 and \
+                isinstance(body[0], ast.If) and body[0].orelse else None
+            if isinstance(h.type, ast.Tuple) and h.name and \
+                    isinstance(t, ast.Call) and \
+                    isinstance(t.func, ast.Name) and \
+                    t.func.id == 'isinstance' and len(t.args) == 2 and \
+                    isinstance(t.args[0], ast.Name) and \
+                    t.args[0].id == h.name:
+                dumps = [ast.dump(e) for e in h.type.elts]
+                if ast.dump(t.args[1]) in dumps and len(dumps) >= 2:
+                    rest = [e for e in h.type.elts
+                            if ast.dump(e) != ast.dump(t.args[1])]
+                    first = ast.copy_location(ast.ExceptHandler(
+                        type=t.args[1], name=h.name, body=body[0].body), h)
+                    second = ast.copy_location(ast.ExceptHandler(
+                        type=rest[0] if len(rest) == 1 else ast.Tuple(
+                            elts=rest, ctx=ast.Load()),
+                        name=h.name, body=body[0].orelse), h)
+                    out += [first] + self._split_handlers([second])
+                    self.count += 1
+                    continue
+            out.append(h)
+        return out
 
     def _devirtualise(self, stmts):
         """if c: fn = a
@@ -1447,7 +1530,22 @@ class _Desugar(ast.NodeTransformer):
            if h is not None: BODY(h)  [else: ELSE]
              ->  if x == 'a': BODY(fa) elif x == 'b': BODY(fb) [else: ELSE]
         (table and h used for nothing else in the block)."""
-        out = list(stmts)
+        out = []
+        for st in stmts:
+            # h = {'a': fa, ...}.get(x): the table written in place
+            if isinstance(st, ast.Assign) and len(st.targets) == 1 and \
+                    isinstance(st.targets[0], ast.Name) and \
+                    isinstance(st.value, ast.Call) and \
+                    isinstance(st.value.func, ast.Attribute) and \
+                    st.value.func.attr == 'get' and \
+                    isinstance(st.value.func.value, ast.Dict):
+                tname = st.targets[0].id + '_table'
+                out.append(ast.copy_location(ast.Assign(
+                    targets=[ast.Name(id=tname, ctx=ast.Store())],
+                    value=st.value.func.value, lineno=st.lineno), st))
+                st.value.func.value = ast.copy_location(
+                    ast.Name(id=tname, ctx=ast.Load()), st)
+            out.append(st)
         i = 0
         while i + 2 < len(out) + 0:
             d, g = out[i], out[i + 1]
@@ -1629,6 +1727,30 @@ class _Desugar(ast.NodeTransformer):
         out = []
         for st in stmts:
             seq = None
+            if isinstance(st, ast.For) and not st.orelse and \
+                    isinstance(st.target, ast.Tuple) and \
+                    all(isinstance(e, ast.Name) for e in st.target.elts) and \
+                    isinstance(st.iter, (ast.Tuple, ast.List)) and \
+                    1 <= len(st.iter.elts) <= 6 and all(
+                        isinstance(row, ast.Tuple) and
+                        len(row.elts) == len(st.target.elts) and
+                        all(isinstance(x, ast.Constant) or _simple_arg(x)
+                            for x in row.elts) for row in st.iter.elts):
+                # for a, b in (('x', X), ('y', Y)): body  (a table of pairs)
+                names = [e.id for e in st.target.elts]
+                body_stores = {n.id for b in st.body for n in ast.walk(b)
+                               if isinstance(n, ast.Name) and
+                               isinstance(n.ctx, (ast.Store, ast.Del))}
+                if not (set(names) & body_stores) and not any(
+                        isinstance(n, (ast.Break, ast.Continue))
+                        for b in st.body for n in ast.walk(b)):
+                    import copy as _c
+                    for row in st.iter.elts:
+                        env = dict(zip(names, row.elts))
+                        for b in st.body:
+                            out.append(_Subst(env, {}).visit(_c.deepcopy(b)))
+                    self.count += 1
+                    continue
             if isinstance(st, ast.For) and not st.orelse and \
                     isinstance(st.target, ast.Name):
                 it = st.iter
@@ -1991,10 +2113,12 @@ def module_constants(tree, others=()):
     def container(e):
         """A list / set / dict of literals: one shared object, so it is a
         constant only when the module never does anything but read it."""
+        def item(x):
+            return literal(x) or isinstance(x, (ast.Name, ast.Attribute))
         if isinstance(e, (ast.List, ast.Set)):
-            return all(literal(x) for x in e.elts)
+            return all(item(x) for x in e.elts)
         if isinstance(e, ast.Dict):
-            return all(k is not None and literal(k) and literal(v)
+            return all(k is not None and literal(k) and item(v)
                        for k, v in zip(e.keys, e.values))
         return False
     count = {}
@@ -2023,7 +2147,57 @@ def module_constants(tree, others=()):
                         container(st.value) and
                         _only_read(tree, st.targets[0].id, others))):
             out[st.targets[0].id] = st.value
+    # a table computed from other constants ({s: i for i, s in
+    # enumerate(ORDER)}): its value, when it folds and is only read
+    for st in tree.body:
+        if isinstance(st, ast.Assign) and len(st.targets) == 1 and \
+                isinstance(st.targets[0], ast.Name) and \
+                st.targets[0].id not in out and \
+                count.get(st.targets[0].id) == 1 and \
+                isinstance(st.value, (ast.DictComp, ast.ListComp,
+                                      ast.SetComp, ast.Call)) and \
+                _only_read(tree, st.targets[0].id, others):
+            folded = _fold(st.value, out)
+            if folded is not None:
+                out[st.targets[0].id] = folded
     return out
+
+
+def _fold(e, consts):
+    """The literal e evaluates to (strings, numbers, None, tuples / lists /
+    dicts of those), folding other constants of the module; else None."""
+    from .analysis import const_value, MISSING
+    from .program import AnalysisError
+    if isinstance(e, ast.Call) and not (
+            isinstance(e.func, ast.Name) and
+            e.func.id in ('dict', 'tuple', 'list', 'frozenset', 'sorted')):
+        return None
+
+    def env(d):
+        v = consts.get(d)
+        return v if v is not None else MISSING
+    try:
+        v = const_value(e, env)
+    except (AnalysisError, TypeError, ValueError, KeyError):
+        return None
+
+    def plain(x, depth=0):
+        if depth > 4:
+            return False
+        if x is None or isinstance(x, (str, int, float, bool)):
+            return True
+        if isinstance(x, (tuple, list)):
+            return all(plain(y, depth + 1) for y in x)
+        if isinstance(x, dict):
+            return all(plain(k, depth + 1) and plain(y, depth + 1)
+                       for k, y in x.items())
+        return False
+    if not plain(v) or not v:
+        return None
+    try:
+        return ast.parse(repr(v), mode='eval').body
+    except SyntaxError:
+        return None
 
 
 _READ_METHODS = ('get', 'keys', 'values', 'items', 'index', 'count', 'copy')
@@ -2251,6 +2425,10 @@ class _Thread(ast.NodeTransformer):
         while i + 1 < len(out):
             first, second = out[i], out[i + 1]
             i += 1
+            if isinstance(second, ast.Raise) and isinstance(first, ast.If):
+                if self._sink(out, i, first, second):
+                    i = max(i - 1, 0)
+                continue
             if not isinstance(second, ast.If):
                 continue
             t, neg = second.test, False
@@ -2305,6 +2483,33 @@ class _Thread(ast.NodeTransformer):
             self.count += 1
             i = max(i - 1, 0)
         return out
+
+    def _sink(self, out, i, first, second):
+        """    if c: r = X                 if c: raise X from e
+               else: r = Y          ->     else: raise Y from e
+               raise r from e
+        (likewise `return r`): r is bound at the ends of the first statement
+        only and read by the second one only."""
+        names = [n for n in ast.walk(second) if isinstance(n, ast.Name) and
+                 isinstance(n.ctx, ast.Load)]
+        loads, stores = self.uses[-1]
+        for cand in {n.id for n in names}:
+            leaves = self._leaves(first, cand)
+            if leaves is None or len(leaves) > 4 or \
+                    loads.get(cand) != 1 or stores.get(cand) != len(leaves):
+                continue
+            if any(isinstance(n, ast.Name) and n.id == cand
+                   for lf in leaves for n in ast.walk(lf.value)):
+                continue
+            repl = {id(lf): [_Subst({cand: lf.value}, {}).visit(
+                copy.deepcopy(second))] for lf in leaves}
+            out[i - 1] = self._replace(first, repl)
+            flat = out[i - 1] if isinstance(out[i - 1], list) \
+                else [out[i - 1]]
+            out[i - 1:i + 1] = flat
+            self.count += 1
+            return True
+        return False
 
     def _thread_none(self, out, i, first, second, t, neg):
         """    if c: r = Error(a)                if c: use(Error(a))
@@ -2533,6 +2738,7 @@ def normalise(trees, known=None):
     n = desugar(trees)
     n += _split_selector_calls(trees, known)
     log = clog + Inliner(trees, known).run()
+    n += thread_decisions(trees)
     n += desugar(trees)
     for t in trees.values():
         q = _Quantifiers()
